@@ -85,7 +85,7 @@ def canon_tranp(n):
 	if isinstance(n, defs.String):
 		return ('Str', n.tokens)
 	if isinstance(n, defs.Boolean):
-		return ('Const', n.tokens)
+		return ('Const', 'True' if isinstance(n, defs.Truthy) else 'False')
 	if isinstance(n, defs.Null):
 		return ('Const', 'None')
 	if isinstance(n, defs.Elipsis):
@@ -97,14 +97,15 @@ def canon_tranp(n):
 	if isinstance(n, defs.Tuple):
 		return ('Tuple', [canon_tranp(v) for v in n.values])
 	if isinstance(n, defs.Dict):
-		return ('Dict', [canon_tranp(v) for v in n.items])
+		# an item that is not a Pair is a `**expr` spread (grammar: _dict_exprlist)
+		return ('Dict', [canon_tranp(v) if isinstance(v, defs.Pair) else ('Star', canon_tranp(v)) for v in n.items])
 	if isinstance(n, defs.Comprehension):
 		return ('ListComp' if isinstance(n, defs.ListComp) else 'DictComp', canon_tranp(n.projection),
 			[('for', [canon_tranp(s) for s in f.symbols], canon_tranp(f.for_in.iterates)) for f in n.fors], canon_tranp(n.condition))
 	if isinstance(n, defs.Lambda):
 		return ('Lambda', [s.tokens for s in n.symbols], canon_tranp(n.expression))
 	if isinstance(n, defs.Type):
-		return ('Type', n.tokens.replace(' ', ''))
+		return ('Type', _type_tokens(n.tokens.replace('.', ' ')))
 	# ---- statements ------------------------------------------------------------------
 	if isinstance(n, defs.Entrypoint):
 		return ('Module', stmts(n.statements))
@@ -127,7 +128,7 @@ def canon_tranp(n):
 	if isinstance(n, (defs.Pass, defs.Break, defs.Continue)):
 		return (cls.__name__,)
 	if isinstance(n, defs.Import):
-		return ('ImportFrom', n.import_path.tokens, [(s.symbol.tokens if hasattr(s, 'symbol') else s.tokens, '' if _is_empty(s.alias) else s.alias.tokens) for s in n.symbols])
+		return ('ImportFrom', n.import_path.tokens, [(s.entity_symbol.tokens, '' if _is_empty(s.alias) else s.alias.tokens) for s in n.symbols])
 	if isinstance(n, defs.If):
 		return ('If', canon_tranp(n.condition), stmts(n.statements), [(canon_tranp(e.condition), stmts(e.statements)) for e in n.else_ifs],
 			('Empty',) if _is_empty(n.else_clause) else stmts(n.else_clause.statements))
@@ -153,6 +154,12 @@ def canon_tranp(n):
 	if isinstance(n, ITerminal) or not n.prop_keys():
 		return (cls.__name__, n.tokens)
 	return (cls.__name__, [(k, _generic(getattr(n, k))) for k in n.prop_keys()])
+
+
+def _type_tokens(text: str) -> str:
+	"""Annotations are compared as their sequence of name / number / string-content / ellipsis tokens."""
+	import re
+	return '.'.join(t for t in re.findall(r'[A-Za-z_][A-Za-z_0-9]*|\d+|\.\.\.', text) if t not in ('None', 'Literal', 'Annotated'))  # typed_none / "Literal" / "Annotated" are anonymous in grammar.lark
 
 
 def _generic(v):
@@ -195,6 +202,7 @@ AUGOPS = {ast.Add: '+=', ast.Sub: '-=', ast.Mult: '*=', ast.Div: '/=', ast.Mod: 
 class PyCanon:
 	def __init__(self, source: str) -> None:
 		self.source = source
+		self.ctx = 'module'
 
 	def seg(self, n) -> str:
 		return ast.get_source_segment(self.source, n) or ''
@@ -239,16 +247,14 @@ class PyCanon:
 		if isinstance(n, ast.Subscript):
 			s = n.slice
 			if isinstance(s, ast.Slice):
-				return ('Index', self.expr(n.value), 'slice', [self.expr(x) if x is not None else ('Empty',) for x in ([s.lower, s.upper] + ([s.step] if s.step is not None else []))])
+				return ('Index', self.expr(n.value), 'slice', [self.expr(x) if x is not None else ('Empty',) for x in (s.lower, s.upper, s.step)])
 			if isinstance(s, ast.Tuple) and not self._parenthesised(s):
 				if any(isinstance(x, ast.Slice) for x in s.elts):
 					raise Unsupported('multi-dimensional slice')
 				return ('Index', self.expr(n.value), 'keys', [self.expr(x) for x in s.elts])
 			return ('Index', self.expr(n.value), 'keys', [self.expr(s)])
 		if isinstance(n, ast.Call):
-			args = [('Arg', '', '*' if isinstance(a, ast.Starred) else '', self.expr(a.value if isinstance(a, ast.Starred) else a)) for a in n.args]
-			args += [('Arg', k.arg or '', '' if k.arg else '**', self.expr(k.value)) for k in n.keywords]
-			return ('Call', self.expr(n.func), args)
+			return ('Call', self.expr(n.func), self.call_args(n))
 		if isinstance(n, ast.Starred):
 			return ('Star', self.expr(n.value))
 		if isinstance(n, ast.Constant):
@@ -282,10 +288,42 @@ class PyCanon:
 			return ('ListComp' if isinstance(n, ast.ListComp) else 'DictComp', proj, fors, cond)
 		raise Unsupported(type(n).__name__)
 
+	def call_args(self, n: ast.Call) -> list:
+		"""Arguments in source order (ast separates positional and keyword arguments)."""
+		items = [((a.lineno, a.col_offset), ('Arg', '', '*' if isinstance(a, ast.Starred) else '', self.expr(a.value if isinstance(a, ast.Starred) else a))) for a in n.args]
+		items += [((k.value.lineno, k.value.col_offset), ('Arg', k.arg or '', '' if k.arg else '**', self.expr(k.value))) for k in n.keywords]
+		return [x for _, x in sorted(items, key=lambda t: t[0])]
+
 	def _parenthesised(self, n) -> bool:
-		return self.seg(n).startswith('(')
+		text = self.seg(n)
+		if not (text.startswith('(') and text.endswith(')')):
+			return False
+		depth = 0
+		quote = ''
+		i = 0
+		while i < len(text):
+			c = text[i]
+			if quote:
+				if c == '\\':
+					i += 1
+				elif text.startswith(quote, i):
+					i += len(quote) - 1
+					quote = ''
+			elif c in '"\'':
+				quote = c * 3 if text.startswith(c * 3, i) else c
+				i += len(quote) - 1
+			elif c in '([{':
+				depth += 1
+			elif c in ')]}':
+				depth -= 1
+				if depth == 0 and i != len(text) - 1:
+					return False
+			i += 1
+		return True
 
 	def target(self, n, aug: bool = False):
+		if isinstance(n, ast.Starred):
+			raise Unsupported('starred assignment target')
 		if isinstance(n, ast.Name):
 			return ('name', n.id) if aug else ('decl', n.id)
 		if isinstance(n, ast.Attribute) and isinstance(n.value, ast.Name) and n.value.id == 'self':
@@ -293,20 +331,34 @@ class PyCanon:
 		return self.expr(n)
 
 	def annotation(self, n):
-		return ('Type', self.seg(n).replace(' ', '').replace("'", '').replace('"', '')) if n is not None else ('Empty',)
+		return ('Type', _type_tokens(self.seg(n))) if n is not None else ('Empty',)
 
 	def body(self, body: list, doc: bool = False) -> list:
 		out = []
 		for i, s in enumerate(body):
 			if doc and i == 0 and isinstance(s, ast.Expr) and isinstance(s.value, ast.Constant) and isinstance(s.value.value, str):
 				continue
-			out.append(self.stmt(s))
+			out.append(self.stmt(s, self.ctx))
 		return out
 
+	def is_doc(self, s) -> bool:
+		"""DocString (literal.py): a triple-double-quoted string statement directly in a def/class block."""
+		if not (isinstance(s, ast.Expr) and isinstance(s.value, ast.Constant) and isinstance(s.value.value, str)):
+			return False
+		text = self.seg(s.value)
+		return text.startswith('"""') and text.endswith('"""')
+
 	def has_doc(self, body: list):
-		return ('Doc',) if body and isinstance(body[0], ast.Expr) and isinstance(body[0].value, ast.Constant) and isinstance(body[0].value.value, str) else ('Empty',)
+		return ('Doc',) if any(self.is_doc(s) for s in body) else ('Empty',)
 
 	def stmt(self, s, ctx: str = 'module'):
+		self.ctx = ctx  # compound statements keep the enclosing namespace kind (Python semantics)
+		try:
+			return self._stmt(s, ctx)
+		finally:
+			self.ctx = ctx
+
+	def _stmt(self, s, ctx: str):
 		if isinstance(s, ast.Expr):
 			if isinstance(s.value, ast.Yield):
 				if s.value.value is None:
@@ -316,9 +368,17 @@ class PyCanon:
 		if isinstance(s, ast.Assign):
 			if len(s.targets) != 1:
 				raise Unsupported('chained assignment')
+			if isinstance(s.value, ast.Call) and isinstance(s.value.func, ast.Name) and s.value.func.id in ('TypeVar', 'TypeVarTuple', 'ParamSpec', 'TypedDict') and isinstance(s.targets[0], ast.Name):
+				return ('TypeDecl', s.targets[0].id)  # template_assign / class_assign productions of grammar.lark
 			t = s.targets[0]
 			targets = [self.target(x) for x in t.elts] if isinstance(t, ast.Tuple) and not self._parenthesised(t) else [self.target(t)]
 			return ('Assign', targets, self.expr(s.value))
+		if isinstance(s, ast.AnnAssign) and isinstance(s.annotation, ast.Name) and s.annotation.id == 'TypeAlias' and isinstance(s.target, ast.Name):
+			return ('TypeDecl', s.target.id)
+		if isinstance(s, ast.AnnAssign) and isinstance(s.annotation, ast.Name) and s.annotation.id == 'ClassVar' and s.value is not None:
+			return ('Assign', [self.target(s.target)], self.expr(s.value))  # class_var_assign production
+		if isinstance(s, ast.AnnAssign) and isinstance(s.annotation, ast.Subscript) and isinstance(s.annotation.value, ast.Name) and s.annotation.value.id == 'ClassVar' and s.value is not None:
+			return ('AnnAssign', self.target(s.target), self.annotation(s.annotation.slice), self.expr(s.value))  # class_var_anno_assign
 		if isinstance(s, ast.AnnAssign):
 			return ('AnnAssign', self.target(s.target), self.annotation(s.annotation), self.expr(s.value) if s.value is not None else ('Empty',))
 		if isinstance(s, ast.AugAssign):
@@ -364,6 +424,10 @@ class PyCanon:
 				raise Unsupported('try-else/finally')
 			return ('Try', self.body(s.body), [(self.annotation(h.type), h.name or '', self.body(h.body)) for h in s.handlers])
 		if isinstance(s, ast.With):
+			first = s.items[0].context_expr
+			line = self.source.splitlines()[s.lineno - 1]
+			if first.lineno == s.lineno and '(' in line[s.col_offset + 4:first.col_offset]:
+				raise Unsupported('parenthesised with-items (3.10 syntax)')
 			return ('With', [(self.expr(i.context_expr), i.optional_vars.id if isinstance(i.optional_vars, ast.Name) else '') for i in s.items], self.body(s.body))
 		if isinstance(s, ast.FunctionDef):
 			return self.function(s, ctx)
@@ -375,9 +439,7 @@ class PyCanon:
 		out = []
 		for d in decs:
 			if isinstance(d, ast.Call):
-				args = [('Arg', '', '*' if isinstance(a, ast.Starred) else '', self.expr(a.value if isinstance(a, ast.Starred) else a)) for a in d.args]
-				args += [('Arg', k.arg or '', '' if k.arg else '**', self.expr(k.value)) for k in d.keywords]
-				out.append(('Decorator', self.seg(d.func), args))
+				out.append(('Decorator', self.seg(d.func), self.call_args(d)))
 			else:
 				out.append(('Decorator', self.seg(d), []))
 		return out
@@ -409,15 +471,23 @@ class PyCanon:
 			params.append(('Param', ('decl', a.kwarg.arg), '**', self.annotation(a.kwarg.annotation), ('Empty',)))
 		tparams = [t.name for t in getattr(f, 'type_params', [])]
 		inner = 'function'
-		body = [self.stmt(s, inner) for s in f.body[(1 if self.has_doc(f.body) == ('Doc',) else 0):]]
-		return (kind, f.name, self.decorators(f.decorator_list), tparams, params, self.annotation(f.returns), self.has_doc(f.body), body)
+		body = [self.stmt(s, inner) for s in f.body if not self.is_doc(s)]
+		name = f.name
+		for d in f.decorator_list:
+			if isinstance(d, ast.Call) and self.seg(d.func) == '__actual__' and d.args and isinstance(d.args[0], ast.Constant):
+				name = d.args[0].value
+		return (kind, name, self.decorators(f.decorator_list), tparams, params, self.annotation(f.returns), self.has_doc(f.body), body)
 
 	def klass(self, c: ast.ClassDef):
 		bases = [b for b in c.bases if not (isinstance(b, ast.Subscript) and isinstance(b.value, ast.Name) and b.value.id == 'Generic')]
 		is_enum = any(self.seg(b) in ('Enum', 'IntEnum', 'CEnum') for b in c.bases)
 		tparams = [t.name for t in getattr(c, 'type_params', [])]
-		body = [self.stmt(s, 'class') for s in c.body[(1 if self.has_doc(c.body) == ('Doc',) else 0):]]
-		return ('Enum' if is_enum else 'Class', c.name, self.decorators(c.decorator_list), tparams, [self.annotation(b) for b in bases], self.has_doc(c.body), body)
+		body = [self.stmt(s, 'class') for s in c.body if not self.is_doc(s)]
+		name = c.name
+		for d in c.decorator_list:
+			if isinstance(d, ast.Call) and self.seg(d.func) == '__actual__' and d.args and isinstance(d.args[0], ast.Constant):
+				name = d.args[0].value  # ClassDef.actual_symbol
+		return ('Enum' if is_enum else 'Class', name, self.decorators(c.decorator_list), tparams, [self.annotation(b) for b in bases], self.has_doc(c.body), body)
 
 	def module(self, tree: ast.Module):
 		return ('Module', [self.stmt(s) for s in tree.body])
